@@ -128,6 +128,10 @@ def strat_policy(rng, k, **kw):
     if klass == 7 and "mki" not in kw:
         kw["mki"] = True
     p = rand_policy(rng, **kw)
+    if p.rtp[0] in (GCM128, GCM256):
+        # AES-GCM: all four combinations of the 16- and 8-octet tag for the SRTP and SRTCP halves, whatever the seed
+        p.rtp = p.rtp[:4] + ((16, 8)[k % 2],) + p.rtp[5:]
+        p.rtcp = p.rtcp[:4] + ((16, 8)[(k // 2) % 2],) + p.rtcp[5:]
     if klass == 7 and p.use_mki and (k // 10) % 2 == 0:
         p.keys = p.keys[:1]            # an MKI with exactly one master key: the MKI octets still select (and must match) it
     aead = p.rtp[0] in (GCM128, GCM256)
